@@ -163,3 +163,167 @@ theorem lookup_after_put (r : Reg) (k : String) (v : Nat) (ops : List Op) :
   | some v' => exact ⟨v', by simp [step, hg]⟩
 
 end Sidetree.Props.C20
+
+/-! ### sections of several accesses are atomic -/
+
+namespace Sidetree.Props.C20
+open Sidetree.Conc
+
+theorem sinv_step (s s' : Sys) (t : Nat) (h : SInv s) (st : SStep s t s') : SInv s' := by
+  obtain ⟨hx, hr⟩ := h
+  cases st with
+  | beginW body hall =>
+    refine ⟨?_, ?_⟩
+    · intro a b hab ha
+      simp only [Sys.set] at ha ⊢
+      by_cases hb : b = t
+      · subst hb
+        have : ¬ a = b := hab
+        simp only [this, if_false] at ha
+        rw [hall a] at ha; cases ha
+      · simp only [hb, if_false]; exact hall b
+    · intro a ha
+      simp only [Sys.set] at ha ⊢
+      by_cases hat : a = t
+      · simp [hat] at ha
+      · simp only [hat, if_false] at ha ⊢
+        rw [hall a] at ha; cases ha
+  | beginR body hout hnw hbody =>
+    refine ⟨?_, ?_⟩
+    · intro a b hab ha
+      simp only [Sys.set] at ha ⊢
+      by_cases hat : a = t
+      · simp [hat] at ha
+      · simp only [hat, if_false] at ha
+        exact absurd ha (hnw a)
+    · intro a ha
+      simp only [Sys.set] at ha ⊢
+      by_cases hat : a = t
+      · simp [hat, hbody]
+      · simp only [hat, if_false] at ha ⊢
+        exact hr a ha
+  | put k v rest hin htodo =>
+    refine ⟨?_, ?_⟩
+    · intro a b hab ha
+      simp only [Sys.set] at ha ⊢
+      by_cases hat : a = t
+      · subst hat
+        have hb : ¬ b = a := fun e => hab e.symm
+        simp only [hb, if_false]
+        exact hx a b hab hin
+      · simp only [hat, if_false] at ha
+        have := hx a t hat ha
+        rw [this] at hin; cases hin
+    · intro a ha
+      simp only [Sys.set] at ha ⊢
+      by_cases hat : a = t
+      · simp [hat] at ha
+      · simp only [hat, if_false] at ha ⊢
+        exact hr a ha
+  | get k rest m hin htodo =>
+    refine ⟨?_, ?_⟩
+    · intro a b hab ha
+      simp only [Sys.set] at ha ⊢
+      by_cases hat : a = t
+      · subst hat
+        simp only [if_true, Option.some.injEq] at ha
+        subst ha
+        have hb : ¬ b = a := fun e => hab e.symm
+        simp only [hb, if_false]
+        exact hx a b hab hin
+      · simp only [hat, if_false] at ha
+        by_cases hb : b = t
+        · subst hb
+          have := hx a b hab ha
+          rw [this] at hin; cases hin
+        · simp only [hb, if_false]
+          exact hx a b hab ha
+    · intro a ha
+      simp only [Sys.set] at ha ⊢
+      by_cases hat : a = t
+      · subst hat
+        simp only [if_true, Option.some.injEq] at ha ⊢
+        subst ha
+        have := hr a hin
+        rw [htodo] at this
+        simp only [List.all_cons, Bool.and_eq_true] at this
+        exact this.2
+      · simp only [hat, if_false] at ha ⊢
+        exact hr a ha
+  | done m hin htodo =>
+    refine ⟨?_, ?_⟩
+    · intro a b hab ha
+      simp only [Sys.set] at ha ⊢
+      by_cases hat : a = t
+      · simp [hat] at ha
+      · simp only [hat, if_false] at ha
+        by_cases hb : b = t
+        · simp [hb]
+        · simp only [hb, if_false]
+          exact hx a b hab ha
+    · intro a ha
+      simp only [Sys.set] at ha ⊢
+      by_cases hat : a = t
+      · simp [hat] at ha
+      · simp only [hat, if_false] at ha ⊢
+        exact hr a ha
+
+theorem sreachable_inv (s : Sys) (h : SReachable s) : SInv s := by
+  induction h with
+  | init => exact ⟨by intro a b _ ha; simp [Sys.init] at ha, by intro a ha; simp [Sys.init] at ha⟩
+  | step _ st ih => exact sinv_step _ _ _ ih st
+
+/-- **a write section runs alone**: while goroutine `t` is inside a write section, every step the
+    system takes is a step of `t` (nobody can enter, nobody else is inside) -/
+theorem writer_runs_alone (s s' : Sys) (t u : Nat) (hr : SReachable s) (ht : (s.th t).inside = some .w)
+    (st : SStep s u s') : u = t := by
+  have hx := (sreachable_inv s hr).1
+  apply Classical.byContradiction
+  intro hne
+  have hout : (s.th u).inside = none := hx t u (fun e => hne e.symm) ht
+  cases st with
+  | beginW body hall => rw [hall t] at ht; cases ht
+  | beginR body _ hnw _ => exact hnw t ht
+  | put k v rest hin _ => rw [hout] at hin; cases hin
+  | get k rest m hin _ => rw [hout] at hin; cases hin
+  | done m hin _ => rw [hout] at hin; cases hin
+
+/-- **the map does not change under a reader**: while any goroutine is inside a read section, no
+    step changes the registry -/
+theorem reader_sees_constant_map (s s' : Sys) (t u : Nat) (hr : SReachable s) (ht : (s.th t).inside = some .r)
+    (st : SStep s u s') : s'.reg = s.reg := by
+  have hx := (sreachable_inv s hr).1
+  cases st with
+  | beginW _ _ => rfl
+  | beginR _ _ _ _ => rfl
+  | put k v rest hin _ =>
+    exfalso
+    by_cases e : u = t
+    · subst e; rw [hin] at ht; cases ht
+    · have := hx u t e hin
+      rw [this] at ht; cases ht
+  | get _ _ _ _ _ => rfl
+  | done _ _ _ => rfl
+
+/-- what a write section does step by step is what its body does to the map in one go -/
+def applyPuts : List Prim → Reg → Reg
+  | [], r => r
+  | .put k v :: rest, r => applyPuts rest (r.put k v)
+  | .get _ :: rest, r => applyPuts rest r
+
+/-- one step of the goroutine inside a write section advances its body by one access -/
+theorem writer_step (s s' : Sys) (t : Nat) (ht : (s.th t).inside = some .w) (st : SStep s t s') :
+    ((s'.th t).inside = some .w ∧ ∃ p, (s.th t).todo = p :: (s'.th t).todo ∧ s'.reg = applyPuts [p] s.reg) ∨
+    ((s'.th t).inside = none ∧ (s.th t).todo = [] ∧ s'.reg = s.reg) := by
+  cases st with
+  | beginW body hall => rw [hall t] at ht; cases ht
+  | beginR body hout _ _ => rw [hout] at ht; cases ht
+  | put k v rest hin htodo => left; exact ⟨by simp [Sys.set], .put k v, by simp [Sys.set, htodo], by simp [Sys.set, applyPuts]⟩
+  | get k rest m hin htodo =>
+    left
+    rw [hin] at ht
+    cases ht
+    exact ⟨by simp [Sys.set], .get k, by simp [Sys.set, htodo], by simp [Sys.set, applyPuts]⟩
+  | done m hin htodo => right; exact ⟨by simp [Sys.set], htodo, by simp [Sys.set]⟩
+
+end Sidetree.Props.C20
